@@ -39,11 +39,12 @@ def gz_raw(payload, level, fname=None, comment=None, extra=None, hcrc=False, mti
     co = zlib.compressobj(level, zlib.DEFLATED, -15)
     return bytes(hdr) + co.compress(payload) + co.flush() + struct.pack("<II", zlib.crc32(payload) & 0xffffffff, len(payload) & 0xffffffff)
 
-def zip_file(members, method, level=None):
+def zip_file(members, method, level=None, comment=None):
     b = io.BytesIO()
     with zipfile.ZipFile(b, "w", method, compresslevel=level) as z:
         for name, data in members:
             z.writestr(zipfile.ZipInfo(name, (2021, 5, 4, 3, 2, 2)), data, method, compresslevel=level)
+        if comment is not None: z.comment = comment
     return b.getvalue()
 
 def lha0_file(name, payload, dostime):
@@ -78,6 +79,10 @@ def containers(rng, payload, rle_enc, tier, z_streams=(), gz_members=(), pp_file
     out.append(("zip-stored", zip_file([("song.mod", payload)], zipfile.ZIP_STORED)))
     for lv in ((1, 9) if tier == "quick" else range(1, 10)):
         out.append(("zip-deflate-%d" % lv, zip_file([("song.mod", payload)], zipfile.ZIP_DEFLATED, lv)))
+    # archive comments: the end-of-central-directory record is found by scanning backwards from the end of the file in blocks, so its
+    # distance from the end (22 + comment length) is swept around the block size of that scan and its multiples, and to the maximum
+    for cl in ((17, 4073, 4074, 4075, 4076, 4077, 4078, 8172, 65535) if tier == "quick" else sorted(set([0, 1, 17, 65535, 65534] + [4096 * m - 22 + d for m in (1, 2, 3, 8, 15) for d in range(-2, 6)]))):
+        out.append(("zip-comment-%d" % cl, zip_file([("song.mod", payload)], zipfile.ZIP_STORED if cl % 2 else zipfile.ZIP_DEFLATED, 6, comment=bytes(65 + (i * 7 + cl) % 26 for i in range(cl)))))
     readme = b"This is a text file, not a module.\r\n" * 3
     out.append(("zip-readme-first", zip_file([("README", readme), ("file_id.diz", b"diz"), ("song.nfo", b"nfo nfo"), ("song.mod", payload)], zipfile.ZIP_DEFLATED, 6)))
     out.append(("zip-readme-last", zip_file([("song.mod", payload), ("readme.txt", readme)], zipfile.ZIP_DEFLATED, 6)))
